@@ -273,7 +273,9 @@ func (e *Engine) execConvert(fc *fnCtx, st *State, x *ssa.Convert) {
 		v.GoT = x.Type()
 		fc.regs[x] = v
 	case fok && tok && fb.Info()&types.IsInteger != 0 && tb.Info()&types.IsString != 0:
-		e.defineReg(fc, x, "String", ite("(and (>= "+v.T+" 0) (< "+v.T+" 128))", "(str.from_code "+v.T+")", e.sc.declareConst("runestr", "String")))
+		rs := e.sc.declareConst("runestr", "String")
+		e.sc.assert("(str.in_re " + rs + " ((_ re.loop 2 4) (re.range \"\\u{80}\" \"\\u{ff}\")))")
+		e.defineReg(fc, x, "String", ite("(and (>= "+v.T+" 0) (< "+v.T+" 128))", "(str.from_code "+v.T+")", rs))
 	case fok && tok && fb.Info()&types.IsString != 0 && tb.Info()&types.IsString != 0:
 		v.GoT = x.Type()
 		fc.regs[x] = v
